@@ -123,7 +123,7 @@ def subimage(arr, center, shape):
 
     if np.isscalar(shape):
         shape = np.repeat(shape, arr.ndim)
-    assert len(shape) == arr.ndim
+    assert len(shape) in (2, arr.ndim)
 
     def intr(n):
         return intr(np.round(n))
